@@ -54,6 +54,9 @@ func (s Signature) Leaf() *x509.Certificate {
 
 // Extract and verify an enveloped signature at the given root
 func Verify(root *etree.Element, sigpath string, extraCerts []*x509.Certificate) (*Signature, error) {
+	if root == nil {
+		return nil, errors.New("xmldsig: empty document")
+	}
 	root = root.Copy()
 	sigs := root.FindElements(sigpath)
 	if len(sigs) == 0 {
